@@ -22,7 +22,8 @@ TRUSTED = ["Lean 4 kernel", "axioms: propext, Quot.sound, Classical.choice (at m
            "aggregator (scripts wait 150 + 110 ms x files after every step), per-line field parsing and group arithmetic (C05)"]
 ASSUMPTIONS = ["the scripted sessions run as the background user (the only one allowed to read a FIFO)",
                "a settle time of 150 ms + 110 ms per file after every script step lets the aggregator reach quiescence"]
-RULE = ("seeded scripts over 1..4 FIFO files: every file's cat command, 0..6 lines and its end, interleaved at random, biased to "
+RULE = ("queue scripts on the real Aggregate: one file still being read plus 3 / 101 (thorough: up to 250) one-line files, more than NextLinesCh holds, so readers wait to register while the aggregator rotates; "
+        "seeded scripts over 1..4 FIFO files: every file's cat command, 0..6 lines and its end, interleaved at random, biased to "
         "'all commands first' (complete) and 'one file after the other' (late registration) shapes; client merges of 1..4 servers with the "
         "global semaphore held at random; the witnesses of the repaired client-side loss and of the recorded server-side loss run first; "
         "non-trivial = multi-file / rotation / lost / held tag")
@@ -33,6 +34,12 @@ def gen(rng, budget, tier):
     yield "c06.merge 3 H,A0:x:1,A1:y:2,A2:x:4,G,A1:y:3"
     yield "c06.fifo 2 M,C0,P0,P0,X0,C1,P1,X1"                # recorded: file 1 registers after the aggregator finished
     yield "c06.fifo 2 M,C0,C1,P0,P1,P0,X0,P1,X1"
+    # more files than NextLinesCh holds, readers waiting to register while the aggregator rotates
+    yield "c06.queue 3 2"
+    yield "c06.queue 101 5"
+    if tier == "thorough":
+        for n, k in [(98, 1), (99, 0), (100, 3), (130, 5), (250, 0)]:
+            yield f"c06.queue {n} {k}"
     for k in range(budget):
         if k % 4 == 3:
             n = rng.choice([1, 2, 3, 4])
